@@ -377,3 +377,112 @@ func DeepCopy(v any) any {
 	}
 	return v
 }
+
+// EqualFast is Equal without building canonical text.
+func EqualFast(a, b any) bool {
+	switch x := a.(type) {
+	case nil:
+		return b == nil
+	case bool:
+		y, ok := b.(bool)
+		return ok && x == y
+	case string:
+		y, ok := b.(string)
+		return ok && x == y
+	case *Num:
+		y, ok := b.(*Num)
+		if !ok {
+			return false
+		}
+		if x.Bad != "" || y.Bad != "" || x.Special != "" || y.Special != "" {
+			return x.Bad == y.Bad && x.Special == y.Special
+		}
+		return x.R.Cmp(y.R) == 0
+	case []any:
+		y, ok := b.([]any)
+		if !ok || len(x) != len(y) {
+			return false
+		}
+		for i := range x {
+			if !EqualFast(x[i], y[i]) {
+				return false
+			}
+		}
+		return true
+	case map[string]any:
+		y, ok := b.(map[string]any)
+		if !ok || len(x) != len(y) {
+			return false
+		}
+		for k, xv := range x {
+			yv, has := y[k]
+			if !has || !EqualFast(xv, yv) {
+				return false
+			}
+		}
+		return true
+	case Foreign:
+		y, ok := b.(Foreign)
+		return ok && x == y
+	}
+	return false
+}
+
+const (
+	fnvOff   = 14695981039346656037
+	fnvPrime = 1099511628211
+)
+
+func mix(h uint64, s string) uint64 {
+	for i := 0; i < len(s); i++ {
+		h = (h ^ uint64(s[i])) * fnvPrime
+	}
+	return h
+}
+
+// HashValue hashes a normalised value (equal values have equal hashes).
+func HashValue(v any) uint64 { return hashValue(fnvOff, v) }
+
+func hashValue(h uint64, v any) uint64 {
+	switch x := v.(type) {
+	case nil:
+		return mix(h, "n")
+	case bool:
+		if x {
+			return mix(h, "t")
+		}
+		return mix(h, "f")
+	case string:
+		return mix(mix(h, "s"), x) * fnvPrime
+	case *Num:
+		if x.R != nil && x.Bad == "" && x.Special == "" {
+			if x.R.IsInt() && x.R.Num().IsInt64() {
+				n := uint64(x.R.Num().Int64())
+				h = mix(h, "#")
+				for i := 0; i < 8; i++ {
+					h = (h ^ (n & 0xff)) * fnvPrime
+					n >>= 8
+				}
+				return h
+			}
+			return mix(mix(h, "#r"), x.R.RatString())
+		}
+		return mix(mix(h, "#x"), x.Bad+x.Special)
+	case []any:
+		h = mix(h, "[")
+		for _, e := range x {
+			h = hashValue(h, e)
+		}
+		return mix(h, "]")
+	case map[string]any:
+		// order-independent combination
+		var acc uint64
+		for k, e := range x {
+			acc += hashValue(mix(fnvOff, k), e)
+		}
+		return mix(h, "{") ^ acc*fnvPrime
+	case Foreign:
+		return mix(mix(h, "<"), x.Type)
+	}
+	return mix(h, "?")
+}
